@@ -296,12 +296,14 @@ theorem exists_last_split (c : UInt8) : ∀ (s : Bytes), c ∈ s → ∃ pre suf
       subst this
       exact ⟨[], xs, rfl, hx⟩
 
-theorem lastIndexByte_not_mem (s : Bytes) (c : UInt8) (h : c ∉ s) :
-    lastIndexByte s ((c.toNat : Nat) : Int) = -1 := by
+theorem lastIndexByte_not_mem (s : Bytes) {n : Int} (c : UInt8) (hn : n = ((c.toNat : Nat) : Int)) (h : c ∉ s) :
+    lastIndexByte s n = -1 := by
+  subst hn
   simp [lastIndexByte, mkByte_byte, lastIndexByteAux_not_mem c s 0 _ h]
 
-theorem lastIndexByte_split (pre suf : Bytes) (c : UInt8) (h : c ∉ suf) :
-    lastIndexByte (pre ++ c :: suf) ((c.toNat : Nat) : Int) = (pre.length : Int) := by
+theorem lastIndexByte_split (pre suf : Bytes) {n : Int} (c : UInt8) (hn : n = ((c.toNat : Nat) : Int)) (h : c ∉ suf) :
+    lastIndexByte (pre ++ c :: suf) n = (pre.length : Int) := by
+  subst hn
   simp [lastIndexByte, mkByte_byte, lastIndexByteAux_split c suf h pre 0]
 
 /-- the part after the last `c`, computed on the reversed string as the models do -/
@@ -326,13 +328,15 @@ theorem idx_last (s : Bytes) (hs : s ≠ []) :
   have e : len s - 1 = ((s.length - 1 : Nat) : Int) := by simp [len_eq]; omega
   rw [e, idx_natCast (by omega), List.getLast_eq_getElem]
 
-/-- `s[len(s)-1] == c` on a non-empty string -/
-theorem last_byte_test (s : Bytes) (hs : s ≠ []) (c : UInt8) :
-    decide ((((s.getLast hs).toNat : Nat) : Int) = ((c.toNat : Nat) : Int)) = (s.getLast? == some c) := by
+/-- `s[len(s)-1] == c` on a non-empty string; instantiate `n` with the literal and discharge `hn` by `rfl` -/
+theorem last_byte_test (s : Bytes) (hs : s ≠ []) {n : Int} (c : UInt8) (hn : n = ((c.toNat : Nat) : Int)) :
+    decide ((((s.getLast hs).toNat : Nat) : Int) = n) = (s.getLast? == some c) := by
+  subst hn
   rw [List.getLast?_eq_some_getLast hs, Bool.eq_iff_iff, decide_eq_true_eq, byte_toInt_inj]; simp
 
-theorem first_byte_test (s : Bytes) (hs : s ≠ []) (c : UInt8) :
-    decide ((((s.head hs).toNat : Nat) : Int) = ((c.toNat : Nat) : Int)) = (s.head? == some c) := by
+theorem first_byte_test (s : Bytes) (hs : s ≠ []) {n : Int} (c : UInt8) (hn : n = ((c.toNat : Nat) : Int)) :
+    decide ((((s.head hs).toNat : Nat) : Int) = n) = (s.head? == some c) := by
+  subst hn
   rw [List.head?_eq_some_head hs, Bool.eq_iff_iff, decide_eq_true_eq, byte_toInt_inj]; simp
 
 /-! ### strings.Contains with a longer needle: an occurrence at some offset -/
